@@ -1,7 +1,7 @@
 (* C17 — reported line and column numbers point at the right character. *)
 From Coq Require Import ZArith NArith List Bool Arith.
 From CL Require Import Base.Sx Base.Res Model.LineCol Proofs.LineColProofs.
-From CL Require Proofs.CheckBounds Model.CheckProps Model.CheckAndroid Model.CheckFluent Model.Ftl Model.Robust Model.Unescape.
+From CL Require Proofs.CheckBounds Proofs.DtdBounds Model.LineColDtd Model.CheckProps Model.CheckAndroid Model.CheckFluent Model.Ftl Model.Robust Model.Unescape.
 Import ListNotations.
 
 (* For every text and every offset up to its length (inclusive): the search
@@ -111,6 +111,56 @@ Theorem C17_bounds_android_refuted :
     CheckAndroid.check ref l10n = Ok is /\ In i is /\
     CheckAndroid.i_pos i = CheckAndroid.PInt p /\ length (CheckAndroid.val l10n) < p.
 Proof. exact CheckBounds.AndroidB.check_bounds_refuted. Qed.
+
+(* DTD: DTDEntityMixin.value_position resolves the (line, column) pairs of the DTD
+   checker, line 1-based and column 0-based within the value.  The XML parser is
+   not modelled; its contract is the premise [within]: the line exists in the
+   value and the column lies inside it (equivalently, the pair designates an
+   offset k of the value).  File = pre ++ v ++ post, the value v starts at
+   |pre|, the entity at a0 <= |pre|.
+   _partial: the step from the parser's position in the wrapper document
+   (checks/dtd.py: lnr = line - 1, column corrections, clamping to the last
+   line) to the pair is executed (suite CHECK-POS), not proved; it lands
+   outside the contract for line 0 — the listed finding, refuted below. *)
+Theorem C17_bounds_dtd_partial :
+  forall (pre v post : list N) (a0 lp cp : nat),
+  a0 <= length pre -> DtdBounds.within v lp cp ->
+  exists l0 p le,
+    linecol (pre ++ v ++ post) a0 = Some l0 /\
+    LineColDtd.dtd_value_position (pre ++ v ++ post) (length pre) lp cp = Some p /\
+    linecol (pre ++ v ++ post) (length (pre ++ v ++ post)) = Some le /\
+    CheckBounds.lex_le l0 p /\ CheckBounds.lex_le p le.
+Proof. exact DtdBounds.dtd_resolved_between_within. Qed.
+
+(* exactness: for a pair designating offset k of the value the result is the
+   position of the character at offset |pre| + k of the file when k lies in the
+   first line of the value; on later lines the line is right and the column is
+   that character's column minus one (the 0-based column is not converted) *)
+Theorem C17_dtd_position_exact :
+  forall (pre v post : list N) (lp cp k : nat),
+  DtdBounds.designates v lp cp k ->
+  exists l c, linecol (pre ++ v ++ post) (length pre + k) = Some (l, c) /\
+    LineColDtd.dtd_value_position (pre ++ v ++ post) (length pre) lp cp =
+      Some (l, if Nat.eqb lp 1 then c else c - 1).
+Proof. exact DtdBounds.dtd_value_position_exact. Qed.
+
+Theorem C17_dtd_contract_forms : forall v lp cp,
+  DtdBounds.within v lp cp <-> exists k, DtdBounds.designates v lp cp k.
+Proof. exact DtdBounds.within_iff_designates. Qed.
+
+(* the contract is satisfiable: line 2, column 1 of "ab\ncd" is offset 4 *)
+Example C17_dtd_contract_example :
+  DtdBounds.within [97; 98; 10; 99; 100]%N 2 1 /\ DtdBounds.designates [97; 98; 10; 99; 100]%N 2 1 4.
+Proof. unfold DtdBounds.within, DtdBounds.designates. cbn. repeat split; auto. Qed.
+
+(* line 0 — whole-value warnings (0, 0) and errors in the DOCTYPE line — resolves
+   BEFORE the entity start (listed finding dtd-whole-value-position-line-minus-one) *)
+Theorem C17_bounds_dtd_line0_refuted :
+  exists s a0 a p l0,
+    a0 <= a /\ a <= length s /\
+    linecol s a0 = Some l0 /\ LineColDtd.dtd_value_position s a 0 0 = Some p /\
+    ~ CheckBounds.lex_le l0 p.
+Proof. exact DtdBounds.dtd_line0_refuted. Qed.
 
 Example C17_example :
   linecol [97; 10; 98; 99; 10; 100]%N 3 = Some (2, 2) /\
